@@ -101,8 +101,15 @@ type repOpts struct {
 	seen bool
 }
 
+type selCase struct {
+	k int64
+	b *blk
+}
+
 type tail struct {
-	kind string // ver | opt | rest
+	kind  string // ver | opt | rest | sel
+	cases []selCase // sel: LSel k1 b1 (LSel k2 b2 ... dflt); dflt == nil means LFail
+	dflt  *blk
 	g    string
 	f    *fx
 	a, b *blk
@@ -125,10 +132,24 @@ func (b *blk) coq(ind string) string {
 		t = "(LOpt " + b.tail.f.coq() + "\n" + ind + "  " + b.tail.a.coq(ind+"  ") + "\n" + ind + "  " + b.tail.b.coq(ind+"  ") + ")"
 	case b.tail.kind == "rest":
 		t = "(LRest " + b.tail.f.coq() + " " + b.tail.lim + ")"
+	case b.tail.kind == "sel":
+		t = "LFail"
+		if b.tail.dflt != nil {
+			t = b.tail.dflt.coq(ind + "  ")
+		}
+		for i := len(b.tail.cases) - 1; i >= 0; i-- {
+			c := b.tail.cases[i]
+			t = fmt.Sprintf("(LSel %s\n%s  %s\n%s  %s)", coqZ(c.k), ind, c.b.coq(ind+"  "), ind, t)
+		}
 	}
 	for i := len(b.items) - 1; i >= 0; i-- {
 		it := b.items[i]
 		var s string
+		if it.kind == "tag" {
+			// the tag scopes over everything that follows it in this block
+			t = "(LTag " + it.f.coq() + " " + it.prim + "\n" + ind + t + ")"
+			continue
+		}
 		switch it.kind {
 		case "prim":
 			s = "(LPrim " + it.f.coq() + " " + it.prim + ")"
@@ -142,6 +163,31 @@ func (b *blk) coq(ind string) string {
 	return t
 }
 
+func coqZ(k int64) string {
+	if k < 0 {
+		return fmt.Sprintf("(%d)", k)
+	}
+	return fmt.Sprintf("%d", k)
+}
+
+// subBlocks: the blocks hanging off a tail
+func (t *tail) subBlocks() []*blk {
+	if t == nil {
+		return nil
+	}
+	var out []*blk
+	if t.a != nil {
+		out = append(out, t.a, t.b)
+	}
+	for _, c := range t.cases {
+		out = append(out, c.b)
+	}
+	if t.dflt != nil {
+		out = append(out, t.dflt)
+	}
+	return out
+}
+
 func (b *blk) size() int {
 	n := 1
 	for _, it := range b.items {
@@ -150,8 +196,8 @@ func (b *blk) size() int {
 			n += it.body.size()
 		}
 	}
-	if b.tail != nil && b.tail.a != nil {
-		n += b.tail.a.size() + b.tail.b.size()
+	for _, sb := range b.tail.subBlocks() {
+		n += sb.size()
 	}
 	return n
 }
@@ -172,6 +218,7 @@ type pkgInfo struct {
 	fset   *token.FileSet
 	files  []*ast.File
 	consts map[string]ast.Expr
+	iotas  map[string]int64 // value of iota for constants declared in a const group
 	// methods by receiver type name then method name
 	methods map[string]map[string]*ast.FuncDecl
 	// named integer types (type X int)
@@ -197,7 +244,7 @@ func (w *world) loadPkg(dir string) (*pkgInfo, error) {
 	if err != nil {
 		return nil, err
 	}
-	p := &pkgInfo{dir: dir, fset: fset, consts: map[string]ast.Expr{}, methods: map[string]map[string]*ast.FuncDecl{},
+	p := &pkgInfo{dir: dir, fset: fset, consts: map[string]ast.Expr{}, iotas: map[string]int64{}, methods: map[string]map[string]*ast.FuncDecl{},
 		intTypes: map[string]bool{}, structs: map[string]*ast.StructType{}, imports: map[*ast.File]map[string]string{}}
 	for _, e := range ents {
 		n := e.Name()
@@ -236,13 +283,21 @@ func (w *world) loadPkg(dir string) (*pkgInfo, error) {
 					}
 				}
 			case *ast.GenDecl:
-				for _, sp := range d.Specs {
+				var lastVals []ast.Expr
+				for si, sp := range d.Specs {
 					switch sp := sp.(type) {
 					case *ast.ValueSpec:
 						if d.Tok == token.CONST {
+							vals := sp.Values
+							if len(vals) == 0 {
+								vals = lastVals // implicit repetition of the previous expression list
+							} else {
+								lastVals = vals
+							}
 							for i, nm := range sp.Names {
-								if i < len(sp.Values) {
-									p.consts[nm.Name] = sp.Values[i]
+								if i < len(vals) {
+									p.consts[nm.Name] = vals[i]
+									p.iotas[nm.Name] = int64(si)
 								}
 							}
 						}
@@ -653,6 +708,7 @@ type walker struct {
 	call   *callInfo
 	depth  int
 	inLoop *loopInfo
+	iota   int64
 }
 
 func (wk *walker) bad(n ast.Node, format string, a ...any) error {
@@ -823,6 +879,8 @@ func (wk *walker) stmt(s ast.Stmt, rest []ast.Stmt, cont []frame, st *pstate, b 
 		return actNext, wk.assign(s, st, b)
 	case *ast.IfStmt:
 		return wk.ifStmt(s, rest, cont, st, b)
+	case *ast.SwitchStmt:
+		return wk.switchStmt(s, rest, cont, st, b)
 	case *ast.BlockStmt:
 		return actNext, wk.bad(s, "nested block")
 	case *ast.RangeStmt, *ast.ForStmt:
@@ -914,8 +972,20 @@ func (wk *walker) constInt(e ast.Expr, st *pstate) (int64, error) {
 				return n, nil
 			}
 		}
+		if e.Name == "iota" && wk.iota >= 0 {
+			return wk.iota, nil
+		}
 		if ce, ok := wk.pk.consts[e.Name]; ok {
-			return wk.constInt(ce, nil)
+			save := wk.iota
+			wk.iota = wk.pk.iotas[e.Name]
+			n, err := wk.constInt(ce, nil)
+			wk.iota = save
+			return n, err
+		}
+	case *ast.CallExpr:
+		// Action(3), byte(1): conversion of a constant
+		if id, ok := e.Fun.(*ast.Ident); ok && len(e.Args) == 1 && (isBasicConv(id.Name) || wk.pk.intTypes[id.Name]) && id.Name != "string" {
+			return wk.constInt(e.Args[0], st)
 		}
 	case *ast.SelectorExpr:
 		if x, ok := e.X.(*ast.Ident); ok {
@@ -1292,6 +1362,25 @@ func (wk *walker) ifStmt(s *ast.IfStmt, rest []ast.Stmt, cont []frame, st *pstat
 			return actNext, err
 		}
 	}
+	// 3b. if p.F == K { .. } else { .. } on an integer field that was written / read earlier in this block: a tagged choice
+	if be, ok := s.Cond.(*ast.BinaryExpr); ok && be.Op == token.EQL && !(s.Else == nil && returnsError(s.Body)) {
+		if k, err := wk.constInt(be.Y, st); err == nil {
+			if it := wk.tagItem(be.X, st, b); it != nil {
+				it.kind = "tag"
+				kf := append([]frame{{stmts: rest, wk: wk}}, cont...)
+				a, err := wk.block(s.Body.List, kf, st.clone())
+				if err != nil {
+					return actNext, err
+				}
+				d, err := wk.block(elseStmts(s), kf, st.clone())
+				if err != nil {
+					return actNext, err
+				}
+				b.tail = &tail{kind: "sel", cases: []selCase{{k, a}}, dflt: d}
+				return actDone, nil
+			}
+		}
+	}
 	// 4. validation of field values (encoder refuses / decoder rejects): restricts the domain, writes nothing
 	if s.Else == nil && returnsError(s.Body) {
 		if _, err := wk.pred(s.Cond, st); err == nil {
@@ -1468,6 +1557,90 @@ func (wk *walker) ifStmt(s *ast.IfStmt, rest []ast.Stmt, cont []frame, st *pstat
 		}
 	}
 	b.tail = &tail{kind: "opt", f: flag, a: a, b: cblk}
+	return actDone, nil
+}
+
+// tagItem: the item of the current block that wrote / read the integer field e denotes (the tag of a choice)
+func (wk *walker) tagItem(e ast.Expr, st *pstate, b *blk) *item {
+	p, ok := wk.fieldPath(e, st)
+	if !ok || len(p) == 0 {
+		return nil
+	}
+	for _, it := range b.items {
+		if (it.kind == "prim" || it.kind == "tag") && it.f != nil && it.f.kind == "path" && samePath(it.f.path, p) &&
+			(it.prim == "PVarInt" || strings.HasPrefix(it.prim, "(PInt ")) {
+			return it
+		}
+	}
+	return nil
+}
+
+// switchStmt: `switch p.F { case K1: .. case K2, K3: .. default: .. }` on an integer field written / read earlier in
+// this block becomes LTag .. (LSel K1 .. (LSel K2 .. (LSel K3 .. default))); a default that only returns an error is LFail,
+// a missing default continues with the statements after the switch.
+func (wk *walker) switchStmt(s *ast.SwitchStmt, rest []ast.Stmt, cont []frame, st *pstate, b *blk) (action, error) {
+	if s.Init != nil || s.Tag == nil {
+		return actNext, wk.bad(s, "switch without a tag expression")
+	}
+	it := wk.tagItem(s.Tag, st, b)
+	if it == nil {
+		return actNext, wk.bad(s, "switch on something that is not an integer field written or read earlier in this block")
+	}
+	kf := append([]frame{{stmts: rest, wk: wk}}, cont...)
+	t := &tail{kind: "sel"}
+	hasDefault := false
+	seen := map[int64]bool{}
+	for _, cs := range s.Body.List {
+		cc, ok := cs.(*ast.CaseClause)
+		if !ok {
+			return actNext, wk.bad(cs, "switch body")
+		}
+		for _, st1 := range cc.Body {
+			if br, ok := st1.(*ast.BranchStmt); ok {
+				return actNext, wk.bad(br, "break / fallthrough in a switch")
+			}
+		}
+		if cc.List == nil {
+			hasDefault = true
+			blkStmt := &ast.BlockStmt{List: cc.Body}
+			if returnsError(blkStmt) {
+				t.dflt = nil
+				continue
+			}
+			d, err := wk.block(cc.Body, kf, st.clone())
+			if err != nil {
+				return actNext, err
+			}
+			t.dflt = d
+			continue
+		}
+		for _, ce := range cc.List {
+			k, err := wk.constInt(ce, st)
+			if err != nil {
+				return actNext, wk.bad(ce, "case label that is not an integer constant")
+			}
+			if seen[k] {
+				return actNext, wk.bad(ce, "duplicate case label")
+			}
+			seen[k] = true
+			cb, err := wk.block(cc.Body, kf, st.clone())
+			if err != nil {
+				return actNext, err
+			}
+			t.cases = append(t.cases, selCase{k, cb})
+		}
+	}
+	if !hasDefault {
+		d, err := wk.block(nil, kf, st.clone())
+		if err != nil {
+			return actNext, err
+		}
+		t.dflt = d
+	}
+	// canonical order of the cases (Encode and Decode may list them differently)
+	sort.Slice(t.cases, func(i, j int) bool { return t.cases[i].k < t.cases[j].k })
+	it.kind = "tag"
+	b.tail = t
 	return actDone, nil
 }
 
@@ -2711,9 +2884,8 @@ func substPrefix(b *blk, from, to []string) {
 	}
 	if b.tail != nil {
 		sub(b.tail.f)
-		if b.tail.a != nil {
-			substPrefix(b.tail.a, from, to)
-			substPrefix(b.tail.b, from, to)
+		for _, sb := range b.tail.subBlocks() {
+			substPrefix(sb, from, to)
 		}
 	}
 }
@@ -2942,7 +3114,7 @@ func (wk *walker) finish(b *blk) error {
 			return nil
 		case "count":
 			return &opaque{reason: "VarInt(len(field)) not followed by a loop over that field @ " + wk.pk.where(it.pos), pos: it.pos}
-		case "prim":
+		case "prim", "tag":
 			if it.f == nil || it.f.kind == "local" {
 				n := ""
 				if it.f != nil {
@@ -2956,11 +3128,8 @@ func (wk *walker) finish(b *blk) error {
 			}
 		}
 	}
-	if b.tail != nil && b.tail.a != nil {
-		if err := wk.finish(b.tail.a); err != nil {
-			return err
-		}
-		if err := wk.finish(b.tail.b); err != nil {
+	for _, sb := range b.tail.subBlocks() {
+		if err := wk.finish(sb); err != nil {
 			return err
 		}
 	}
@@ -3023,9 +3192,8 @@ func pairConsts(enc, dec *blk) {
 					walk(it.body)
 				}
 			}
-			if b.tail != nil && b.tail.a != nil {
-				walk(b.tail.a)
-				walk(b.tail.b)
+			for _, sb := range b.tail.subBlocks() {
+				walk(sb)
 			}
 		}
 		walk(b)
@@ -3121,7 +3289,7 @@ func translateLayouts(repo, out string) error {
 	sb.WriteString("From Verif Require Import Base.Hex Model.Layout Model.LayoutPrims.\n")
 	sb.WriteString("Import ListNotations.\nOpen Scope string_scope.\nOpen Scope Z_scope.\n\n")
 	sb.WriteString("Definition L := layout LP.\n")
-	for _, c := range []string{"LEnd", "LPrim", "LSeq", "LVer", "LOpt", "LRep", "LRest", "LConst"} {
+	for _, c := range []string{"LEnd", "LPrim", "LSeq", "LVer", "LOpt", "LRep", "LRest", "LConst", "LTag", "LSel", "LFail"} {
 		sb.WriteString("Local Notation " + c + " := (@Layout." + c + " LP).\n")
 	}
 	sb.WriteString("\n")
